@@ -485,6 +485,13 @@ func ReplayCase(cs Case) string {
 	if cs.IsReset {
 		return resetOne(newRunner(), cs)
 	}
+	if n, ok := strings.CutPrefix(cs.Program, "UnmarshalRead-fallback-"); ok {
+		ti := int(n[0] - '0')
+		if m := fbOne(cs.Input, ti, cs.Sched, false); m != "" {
+			return m
+		}
+		return fbOne(cs.Input, ti, cs.Sched, true)
+	}
 	switch cs.Program {
 	case "UnmarshalRead":
 		return routeUnmarshalRead(cs.Input, cs.Sched)
@@ -679,6 +686,7 @@ func Run(r *evid.Run) {
 	// the targeted families run first, the large exhaustive enumeration last (an internal deadline then only cuts the latter short)
 	boundarySweeps(r)
 	unmarshalRoutes(r)
+	fallbackRoutes(r)
 	typedRoutes(r)
 	SparsePointers(r, "c05")
 	surrogateSplits(r)
